@@ -245,6 +245,15 @@ MUTANTS = [
     ('C16', 'demo-history-misses-base', DS,
      "        size -= len(r)\n        if size:",
      "        size -= len(r)\n        if size and not r:"),
+    ('C16', 'demo-storeblob-no-serial-check', DS,
+     "        if old != oldserial:\n            raise ZODB.POSException.ConflictError(\n                oid=oid, serials=(old, oldserial), data=data)",
+     "        if False:\n            raise ZODB.POSException.ConflictError(\n                oid=oid, serials=(old, oldserial), data=data)"),
+    ('C16', 'demo-loadblob-no-base-fallback', DS,
+     "            try:\n                return self.base.loadBlob(oid, serial)\n            except AttributeError:",
+     "            try:\n                raise ZODB.POSException.POSKeyError(oid, serial)\n            except AttributeError:"),
+    ('C16', 'demo-opencommitted-no-base-fallback', DS,
+     "            try:\n                return self.base.openCommittedBlobFile(oid, serial, blob)\n            except AttributeError:",
+     "            try:\n                raise ZODB.POSException.POSKeyError(oid, serial)\n            except AttributeError:"),
     ('C17', 'copy-drops-status', BS,
      "        dest.tpc_begin(transaction, tid, transaction.status)",
      "        dest.tpc_begin(transaction, tid)"),
